@@ -54,6 +54,22 @@ def _q(b, s):
     return [s] if propagated(b.facts, b, s) else []
 
 
+def r2_clear(ck, F, R="C07-R2"):
+    """the buffer is emptied — both counters zeroed — by `clear`, which only write_chunk calls (shared with C08-R3:
+    a spill that leaves one counter behind makes the next insert find the buffer 'full' and grow it)"""
+    callers = sorted({bb.path for bb in F.user_bodies() for s, c, t in calls(bb, A("entries_clear"))})
+    ck.ob(R, "clear-callers", callers == [A("sorter_write_chunk")], f"Entries::clear is called only from write_chunk ({callers})", config=F.config)
+    ec = F.body(A("entries_clear"))
+    zs = {}
+    for site, st in ec.sites():
+        if site.i is not None and st["s"] == "assign" and st["pl"]["p"]:
+            zs[st["pl"]["p"][-1].get("name")] = const_val(ec._expr_of_def((site, "assign", st["rv"])))
+    ck.ob(R, "clear-zeroes-counters", zs == {"entries_len": 0, "bounds_count": 0}, f"clear() sets {zs}", ec)
+    mf = mutated_fields(F, A("entries_struct"))
+    who = {f: sorted({bb.path.split("::")[-1] for bb, s, st in lst if st}) for f, lst in mf.items()}
+    ck.ob(R, "counter-writers", who.get("entries_len") == ["clear", "insert"] and who.get("bounds_count") == ["clear", "insert"], f"entries_len / bounds_count are written only by insert and clear ({ {k: v for k, v in who.items() if k != 'buffer'} })", config=F.config)
+
+
 def r2_spill_all(ck, F):
     R = "C07-R2"
     b = F.body(A("sorter_write_chunk"))
@@ -74,17 +90,7 @@ def r2_spill_all(ck, F):
         ck.ob(R, "push-then-clear", b.dominates(push[0], clr[0]) and all(b.dominates(clr[0], o) for o in oks), "chunks.push(chunk) dominates entries.clear(), which dominates the success exit (data is only forgotten once it is safely in a chunk)", b, clr[0])
         errs = [s for s, k, p in err_return_sites(b)]
         ck.ob(R, "no-clear-on-error", not any(e.bb in b.reachable_from(clr[0].bb) for e in errs), "no error exit after the buffer was cleared", b, clr[0])
-    callers = sorted({bb.path for bb in F.user_bodies() for s, c, t in calls(bb, A("entries_clear"))})
-    ck.ob(R, "clear-callers", callers == [A("sorter_write_chunk")], f"Entries::clear is called only from write_chunk ({callers})", config=F.config)
-    ec = F.body(A("entries_clear"))
-    zs = {}
-    for site, st in ec.sites():
-        if site.i is not None and st["s"] == "assign" and st["pl"]["p"]:
-            zs[st["pl"]["p"][-1].get("name")] = const_val(ec._expr_of_def((site, "assign", st["rv"])))
-    ck.ob(R, "clear-zeroes-counters", zs == {"entries_len": 0, "bounds_count": 0}, f"clear() sets {zs}", ec)
-    mf = mutated_fields(F, A("entries_struct"))
-    who = {f: sorted({bb.path.split("::")[-1] for bb, s, st in lst if st}) for f, lst in mf.items()}
-    ck.ob(R, "counter-writers", who.get("entries_len") == ["clear", "insert"] and who.get("bounds_count") == ["clear", "insert"], f"entries_len / bounds_count are written only by insert and clear ({ {k: v for k, v in who.items() if k != 'buffer'} })", config=F.config)
+    r2_clear(ck, F, R)
     # the written bytes are what the writer over the created chunk received
     wi = calls(b, A("writer_insert"))
     ck.exact(R, "Writer::insert sites in write_chunk", len(wi), 2, F.config)
@@ -185,6 +191,17 @@ def r5_reopen(ck, F, R="C07-R5"):
             # (the error is handed on as it is, or converted here; when the opener returns the merge-free error type
             # the conversion its caller needs is forced by the types)
             ck.ob(R, f"open-into-cursor/{p.split('::')[-1]}", okc, "Reader::new(chunk) then into_cursor, errors converted and propagated: an unreadable chunk is an error, not a skipped source", c)
+        # ... and the per-chunk results are gathered by `collect::<Result<_, _>>()` (first error wins) whose result is
+        # propagated — not flattened / filtered, which would skip the chunks that failed to open
+        pb = F.body(p)
+        col = [(s_, t_) for s_, c_, t_ in calls(pb, "Iterator::collect")]
+        okr = len(col) == 1 and col[0][1]["dest"]["ty"].startswith("std::result::Result<")
+        chain = []
+        if okr:
+            x = pb.arg_exprs(col[0][0])[0]
+            chain = [y.x["path"].rsplit("::", 1)[-1] for y in x.walk() if y.k == "call" and ("Iterator::" in y.x["path"] or "::drain" in y.x["path"] or "::into_iter" in y.x["path"])]
+            okr = set(chain) <= {"map", "drain", "into_iter"} and "map" in chain and propagated(F, pb, col[0][0])
+        ck.ob(R, f"opener-results-collected/{p.split('::')[-1]}", okr, f"the chunks are reopened by {chain} gathered into one Result that is propagated (a chunk that cannot be reopened fails the call)", pb)
     ck.exact(R, "chunk reopen sites", n, 2, F.config)
     for p in (A("sorter_write_chunk"), A("sorter_merge_chunks")):
         b = F.body(p)
